@@ -465,7 +465,7 @@ def play(w: World, history: list, nonce: str, fd: int) -> None:
 
     def select(f):
         if d.selected != f or d.d.dead:
-            cond, _r, _raw = d.cmd(b'SELECT ' + f.encode(), {'ab': ['Select', f]})
+            cond, _r, _raw = d.cmd(b'SELECT ' + _astring(f), {'ab': ['Select', f]})
             d.selected = f if cond == 'OK' else None
         return d.selected == f
 
@@ -477,7 +477,7 @@ def play(w: World, history: list, nonce: str, fd: int) -> None:
             nmsg += 1
             body = message_body(nmsg, nonce)
             fl = ' '.join(flags)
-            cond, resps, _raw = d.cmd(b'APPEND %s (%s) {%d+}\r\n%s' % (f.encode(), fl.encode(),
+            cond, resps, _raw = d.cmd(b'APPEND %s (%s) {%d+}\r\n%s' % (_astring(f), fl.encode(),
                                                                        len(body), body),
                                       dict(note, m=nmsg))
             code = _resp_code(resps, 'APPENDUID')
@@ -498,7 +498,7 @@ def play(w: World, history: list, nonce: str, fd: int) -> None:
                       dict(note, uid=uid))
             else:
                 g = step[3]
-                cond, resps, _raw = d.cmd(b'UID %s %d %s' % (op.upper().encode(), uid, g.encode()),
+                cond, resps, _raw = d.cmd(b'UID %s %d %s' % (op.upper().encode(), uid, _astring(g)),
                                           dict(note, uid=uid))
                 code = _resp_code(resps, 'COPYUID')
                 if cond == 'OK' and code:
@@ -517,9 +517,9 @@ def play(w: World, history: list, nonce: str, fd: int) -> None:
             if select(step[1]):
                 d.cmd(b'CHECK', note)
         elif op == 'Create':
-            d.cmd(b'CREATE ' + step[1].encode(), note)
+            d.cmd(b'CREATE ' + _astring(step[1]), note)
         elif op == 'Rename':
-            cond, _r, _raw = d.cmd(b'RENAME %s %s' % (step[1].encode(), step[2].encode()), note)
+            cond, _r, _raw = d.cmd(b'RENAME %s %s' % (_astring(step[1]), _astring(step[2])), note)
             if cond == 'OK':
                 a, b = step[1], step[2]
                 for (f, m), u in list(loc.items()):
@@ -528,9 +528,9 @@ def play(w: World, history: list, nonce: str, fd: int) -> None:
                 if d.selected is not None and (d.selected == a or d.selected.startswith(a + '/')):
                     d.selected = None
         elif op == 'Subscribe':
-            d.cmd(b'SUBSCRIBE ' + step[1].encode(), note)
+            d.cmd(b'SUBSCRIBE ' + _astring(step[1]), note)
         elif op == 'Unsubscribe':
-            d.cmd(b'UNSUBSCRIBE ' + step[1].encode(), note)
+            d.cmd(b'UNSUBSCRIBE ' + _astring(step[1]), note)
         elif op == 'Logout':
             d.cmd(b'LOGOUT', note)
             return
